@@ -871,13 +871,24 @@ func (t *streamableHTTPClientTransport) sendResponseToServer(response interface{
 		return
 	}
 
-	ctx, cancel := context.WithTimeout(context.Background(), 30*time.Second)
+	// Answers to server-issued requests are background traffic of the listening stream: reuse the
+	// context values retained from the handshake (not its cancellation), as the GET request does.
+	t.getSSEConn.mutex.Lock()
+	baseCtx := t.getSSEConn.ctx
+	t.getSSEConn.mutex.Unlock()
+	if baseCtx == nil {
+		baseCtx = context.Background()
+	}
+	ctx, cancel := context.WithTimeout(icontext.WithoutCancel(baseCtx), 30*time.Second)
 	defer cancel()
 
 	httpReq, err := http.NewRequestWithContext(ctx, http.MethodPost, t.serverURL.String(), bytes.NewReader(respBytes))
 	if err != nil {
 		t.logger.Errorf("Error creating HTTP request for response: %v", err)
 		return
+	}
+	if len(t.path) != 0 {
+		httpReq.URL.Path = t.path
 	}
 
 	httpReq.Header.Set("Content-Type", "application/json")
@@ -892,6 +903,14 @@ func (t *streamableHTTPClientTransport) sendResponseToServer(response interface{
 	// Add session ID if available
 	if t.sessionID != "" {
 		httpReq.Header.Set(httputil.SessionIDHeader, t.sessionID) // Use correct MCP protocol header: Mcp-Session-Id.
+	}
+
+	// Call HTTP before-request function, if configured.
+	if t.client != nil {
+		if err := t.client.applyHTTPBeforeRequest(ctx, httpReq); err != nil {
+			t.logger.Errorf("HTTP before-request failed, response not sent: %v", err)
+			return
+		}
 	}
 
 	var resp *http.Response
@@ -939,8 +958,15 @@ func (t *streamableHTTPClientTransport) terminateSession(ctx context.Context) er
 		}
 	}
 
-	// Send request
-	httpResp, err := t.httpClient.Do(httpReq)
+	// Call HTTP before-request function, if configured.
+	if t.client != nil {
+		if err := t.client.applyHTTPBeforeRequest(ctx, httpReq); err != nil {
+			return fmt.Errorf("HTTP before-request failed: %w", err)
+		}
+	}
+
+	// Send request through the configured request handler, like every other request.
+	httpResp, err := t.httpReqHandler.Handle(ctx, t.httpClient, httpReq)
 	if err != nil {
 		return fmt.Errorf("HTTP request failed: %w", err)
 	}
